@@ -56,6 +56,18 @@ def case_line(kind: str, p: dict) -> str:
 # building the decorated function through the public facade
 
 
+CALL_ARGS = ("caller-7",)       # what the decorated function is called with when a period / ttl is a callable
+
+
+def is_callable(style: dict, which: str) -> bool:
+    c = style.get("callable")
+    return bool(c) and (c is True or c == "both" or c == which)
+
+
+def call_args(case: dict) -> tuple:
+    return CALL_ARGS if case.get("style", {}).get("callable") and case["kind"] != "breaker" else ()
+
+
 def decorate(cache, kind: str, p: dict, style: dict, body):
     form = style.get("form", "int")
     custom = style.get("action") == "custom"
@@ -63,16 +75,26 @@ def decorate(cache, kind: str, p: dict, style: dict, body):
     def action(*a, **k):
         return ACTION_TOKEN
 
-    def arg(ticks):
-        """the duration as written; `style["callable"]` (limiters only): a callable of the call's arguments returning it
-        (`ttl_to_seconds(..., with_callable=True)` calls it on every call and converts what it returns)"""
+    def arg(ticks, which="period"):
+        """the duration as written; `style["callable"]` (limiters only; "period" / "ttl" / "both", True = both): that
+        argument is a callable of the call's arguments returning the spelled duration (`ttl_to_seconds(...,
+        with_callable=True)` calls it on every call and converts what it returns) - every combination of plain and
+        callable period / ttl.  The callable insists on being given the arguments of the call."""
         obj = secs(ticks, form)
-        return (lambda *a, **k: obj) if style.get("callable") else obj
+        if not is_callable(style, which):
+            return obj
+
+        def dynamic(*a, **k):
+            if a != CALL_ARGS:
+                raise AssertionError(f"the {which} callable was called with {a!r}, not with the arguments of the call")
+            return obj
+
+        return dynamic
 
     if kind == "fixed":
         kw = dict(limit=p["limit"], period=arg(p["period"]))
         if p.get("ttl") is not None:
-            kw["ttl"] = arg(p["ttl"])
+            kw["ttl"] = arg(p["ttl"], "ttl")
         if custom:
             kw["action"] = action
         if style.get("direct"):
@@ -141,7 +163,7 @@ def run_seq(case: dict) -> list[str]:
         await cache.init()
         cur = {"oc": "ok", "n": 0}
 
-        async def body():
+        async def body(*a):
             cur["n"] += 1
             return raise_for(cur["oc"])
 
@@ -159,7 +181,7 @@ def run_seq(case: dict) -> list[str]:
                 before = cur["n"]
                 res = exc = None
                 try:
-                    res = await f()
+                    res = await f(*call_args(case))
                 except Exception as e:          # noqa: BLE001 - classified below
                     exc = e
                 if CLOCK.ticks() != ts:
@@ -279,7 +301,7 @@ def run_conc(case: dict, schedule=None):
         await cache.init()
         from .sched import TASK_ID
 
-        async def body():
+        async def body(*a):
             i = TASK_ID.get()
             await sched.point(("body",))
             executed[i] = True
@@ -292,7 +314,7 @@ def run_conc(case: dict, schedule=None):
             async def one():
                 res = exc = None
                 try:
-                    res = await f()
+                    res = await f(*call_args(case))
                 except Exception as e:          # noqa: BLE001
                     exc = e
                 return classify(kind, custom, executed[i], res, exc)
@@ -367,7 +389,7 @@ def gen_params(rng, kind: str, long: bool = False) -> dict:
         return {"limit": rng.choice(LIMITS), "period": period, "ttl": ttl}
     if kind == "slide":
         return {"limit": rng.choice(LIMITS), "period": period}
-    return {"rate": rng.choice(RATES), "period": period, "ttl": rng.choice([period // 2, period, period * 2, 4] + ([other] if other else [])),
+    return {"rate": rng.choice(RATES) if rng.random() < 0.5 else rng.randint(1, 99), "period": period, "ttl": rng.choice([period // 2, period, period * 2, 4] + ([other] if other else [])),
             "min_calls": rng.choice(MIN_CALLS)}
 
 
@@ -391,7 +413,10 @@ def gen_style(rng, kind: str, long: bool = False) -> dict:
     if kind != "breaker":
         st["action"] = rng.choice(["default", "custom"])
         st["direct"] = rng.random() < 0.15
-        st["callable"] = rng.random() < 0.12
+        # every combination of plain and callable period / ttl (the sliding limiter has a period only)
+        st["callable"] = rng.choice(["period", "ttl", "both"]) if rng.random() < 0.2 else False
+        if kind == "slide" and st["callable"]:
+            st["callable"] = "period"
     else:
         st["exc"] = rng.choice(["default", "value"])
     return st
@@ -433,10 +458,41 @@ def gen_calls(rng, kind: str, p: dict, style: dict, maxlen: int, strict: bool) -
     return calls
 
 
+def gen_breaker_boundary_case(rng) -> dict:
+    """a breaker history that puts the trip rule on its edge: `total` calls one tick apart inside one period, `fails`
+    of them failing, the last one failing; `errors_rate` is drawn from 1..99 right at the exact share 100*fails/total:
+    its floor, its ceiling, the nearest integer, one below / above.  With `min_calls = total` only the last call can
+    trip, so the decision is taken on exactly (total, fails); otherwise earlier failing calls decide on the running
+    counts as well.  (A share that is not a whole percent - 2 of 3, 1 of 6, 3 of 7 - tells the exact comparison
+    `fails * 100 >= errors_rate * total` from one made on a rounded or truncated percentage.)"""
+    period = rng.choice([16, 32, 32, 64])
+    total = rng.randint(2, min(14, period - 2))
+    fails = rng.randint(1, total)
+    share = 100 * fails / total
+    lo, hi = int(share), -(-100 * fails // total)
+    rate = rng.choice([lo, hi, round(share), int(share + 0.5), lo - 1, hi + 1, lo, hi])
+    rate = min(99, max(1, rate))
+    ocs = ["fail"] * (fails - 1) + ["ok"] * (total - fails)
+    rng.shuffle(ocs)
+    ocs.append("fail")
+    calls = [[rng.choice([0, 1, 3]) if i == 0 else 1, oc] for i, oc in enumerate(ocs)]
+    # what happens next: still inside the open ttl, at its end, after it
+    ttl = rng.choice([8, 16, period])
+    for dt in rng.sample([1, ttl - 1, ttl, ttl + 1, 2], rng.randint(0, 3)):
+        calls.append([max(1, dt), rng.choice(["ok", "fail"])])
+    style = {"form": rng.choice(FORMS), "purge": False, "exc": rng.choice(["default", "value"])}
+    return {"mode": "seq", "kind": "breaker", "style": style, "calls": calls,
+            "p": {"rate": rate, "period": period, "ttl": ttl, "min_calls": rng.choice([1, 2, total, total, total])}}
+
+
 def gen_seq_case(rng, kind: str, maxlen: int = 24) -> dict:
+    if kind == "breaker" and rng.random() < 0.4:
+        return gen_breaker_boundary_case(rng)
     long = rng.random() < LONG_SHARE
     p = gen_params(rng, kind, long)
     style = gen_style(rng, kind, long)
+    if kind == "fixed" and style.get("callable") in ("ttl", "both") and p["ttl"] is None:
+        p["ttl"] = rng.choice([p["period"] // 2, p["period"], p["period"] * 2, p["period"] + 1])      # an explicit ban to be callable
     strict = kind != "fixed" or rng.random() < 0.5
     return {"mode": "seq", "kind": kind, "p": p, "style": style,
             "calls": gen_calls(rng, kind, p, style, maxlen, strict)}
@@ -458,4 +514,8 @@ def gen_conc_case(rng, kind: str) -> dict:
     schedule = [rng.randint(0, 3) for _ in range(40)]
     form = rng.choice(FORMS)
     style = {"form": form, "action": rng.choice(["default", "custom"])} if kind != "breaker" else {"form": form, "exc": "default"}
+    if kind != "breaker" and rng.random() < 0.2:
+        style["callable"] = "period" if kind == "slide" else rng.choice(["period", "ttl", "both"])
+        if kind == "fixed" and style["callable"] != "period" and p["ttl"] is None:
+            p["ttl"] = rng.choice([p["period"] // 2, p["period"], p["period"] * 2])
     return {"mode": "conc", "kind": kind, "p": p, "style": style, "tasks": ocs, "ticks": ticks, "schedule": schedule}
